@@ -28,10 +28,11 @@ def configs(rng, tier):
     for lib in gen_impl.LIBS:
         for sp, ch in (("0x2", 2), ("0b11", 3), ("0o2", 2), ("3usize", 3), ("1_0", 10), ("2_usize", 2), ("0x0", 0), ("0_0", 0), ("0x1_0", 16)):
             cs.append({"kind": "actor", "lib": lib, "attr": gen_impl.actor_attr(lib, sp), "item": gen_impl.probe_impl(lib)["item"],
-                       "want": [ch if ch else None], "opts": [(None, ch)], "label": "actor lib=%s channel=%s" % (lib, sp)})
+                       "want": [ch if ch else None], "opts": [(None, ch)], "txt": [(None, sp)], "label": "actor lib=%s channel=%s" % (lib, sp)})
     for sp, ch in (("0x2", 2), ("0b11", 3)):
         cs.append({"kind": "family", "lib": "std", "attr": 'channel = %s, actor(first_name = "U", channel = %s), actor(first_name = "V")' % (sp, "0o4"),
-                   "item": gen_impl.probe_impl("std")["item"], "want": [4, ch], "opts": [(ch, 4), (ch, None)], "label": "family lib=std channel=%s member channel=0o4" % sp})
+                   "item": gen_impl.probe_impl("std")["item"], "want": [4, ch], "opts": [(ch, 4), (ch, None)], "txt": [(sp, "0o4"), (sp, None)],
+                   "label": "family lib=std channel=%s member channel=0o4" % sp})
     # families: inherited and overridden member capacity
     for lib in ("std", "tokio", "async_std"):
         for fam_ch in (None, 0, 2, 3):
@@ -89,8 +90,12 @@ def run(rep):
     funs = [("wf", "wf_C08 {i}"), ("cap", "capN_of {i}"), ("search", "c08_search (elab {i}) {a}")]
     res, mod = inst.coq_eval(PID, terms, funs, extra_imports="From IT Require Import Runtime.Explore Gen.Channel.", per_inst_args=[coq_opt(None if c.get("big") else c["want"][j]) for c, j in owners])
     # the generator model (Gen/Channel.v) predicts the constructor of every instance from the options it was given
-    vals = inst.coq_values("C08_ctor", inst.HEADER + "From IT Require Import Gen.Channel.\nFrom ITG Require Import C08_inst.",
-                           [("m%d" % k, "ctor_matches inst_%d %s %s" % (k, nopt(c["opts"][j][0]), nopt(c["opts"][j][1]))) for k, (c, j) in enumerate(owners)])
+    def topt(x):
+        return "None" if x is None else '(Some "%s"%%string)' % x
+    # options written with a spelled literal are handed to Coq as TEXT: Gen/Literal.v `lit_value` decides what capacity they ask for
+    vals = inst.coq_values("C08_ctor", inst.HEADER + "From IT Require Import Gen.Channel Gen.Literal.\nFrom ITG Require Import C08_inst.",
+                           [("m%d" % k, ("ctor_matches_lit inst_%d %s %s" % (k, topt(c["txt"][j][0]), topt(c["txt"][j][1]))) if c.get("txt") else
+                                        ("ctor_matches inst_%d %s %s" % (k, nopt(c["opts"][j][0]), nopt(c["opts"][j][1])))) for k, (c, j) in enumerate(owners)])
     rep.checker_cmds.append("coqc generated/C08_inst.v; coqc generated/C08_oblig.v")
     good = []
     for k, ((c, j), r) in enumerate(zip(owners, res)):
